@@ -26,12 +26,34 @@ PLAN = {
     "C15-A": ("C15", "Radix4::new_with_base over a base that writes its scratch, immutable entry point", [("C15", "r4b_1_1"), ("C12", "R4B")], "caught"),
     "C15-B": ("C15", "AVX RadersAvx2 immutable fast path", [], "missed: AVX kernels are outside the claim"),
 }
+PLAN.update({
+    "R2-C01-A": ("C01", "RadixN with >= 3 cross factors (250, 1050, ...), process_immutable_with_scratch only", [("C01", "n=250:"), ("C01", "n=243:")], "?"),
+    "R2-C01-B": ("C01", "FftPlannerScalar length p^k with p >= 11, k odd >= 5 (161051 = 11^5)", [], "missed: outside every bound (n <= 1024)"),
+    "R2-C06-A": ("C06", "FftPlannerScalar, n = m*2^j with j odd and m from primes >= 11 or 5*2^j/7*2^j (74, 82, 286, 640, ...): plan has len n/2", [("C06", "n=74"), ("C01", "n=74:")], "?"),
+    "R2-C06-B": ("C06", "Rader primes >= 3361 (same defect as C01-A)", [], "missed: outside every bound"),
+    "R2-C07-A": ("C07", "Butterfly1::process_immutable_with_scratch with k >= 2", [("C07", "bf1::"), ("C15", "bf1::")], "?"),
+    "R2-C07-B": ("C07", "SseF32Butterfly32 two-chunk kernel: wrong twiddle in the high lane (numeric, a few percent)", [("C07", "h_sse")], "missed: numerics of SIMD kernels are outside the claim"),
+    "R2-C08-A": ("C08", "directly constructed Bluestein with inner >= 3n-1, in-place path, non-zero initial scratch (exact arithmetic unaffected)", [("C08", "tree=BL"), ("C12", "tree=BL")], "?"),
+    "R2-C08-B": ("C08", "Radix4/RadixN/Radix3/Dft process_with_scratch single-chunk fast path that skips the scratch trim (74, 148 via planner; Radix4::new_with_base)", [("C08", "r4b_1_1::ps"), ("C08", "n=37:")], "?"),
+    "R2-C09-A": ("C09", "Radix4::new_with_base over a base needing more in-place scratch than the Radix4 length (4*p with Bluestein p: 236, 332)", [("C09", "r4b"), ("C08", "r4b_1_1::ps"), ("C12", "R4B")], "?"),
+    "R2-C09-B": ("C09", "SSE f32 butterflies, out-of-place/immutable, one chunk of input and a longer output returns normally", [("C09", "h_sse")], "?"),
+    "R2-C12-A": ("C12", "RadersAlgorithm out-of-place over an inner FFT that needs more scratch than its length (Rader around Bluestein)", [("C12", "rader3"), ("C08", "rader3::oop"), ("C12", "tree=RA")], "?"),
+    "R2-C12-B": ("C12", "validate_and_iter no longer trims the scratch (in-place entry point, slightly longer scratch; compositions with exact scratch)", [("C09", "validate_and_iter_contract"), ("C12", "tree=RA")], "?"),
+    "R2-C15-A": ("C15", "top-level Rader (37, 41, ... via FftPlannerScalar; RadersAlgorithm::new(Dft)), immutable entry point overwrites input[1..]", [("C15", "rader3"), ("C12", "tree=RA")], "?"),
+    "R2-C03-A": ("C03", "process_immutable_with_scratch, exactly one chunk of input, output shorter than input: unchecked kernels write past the output", [("C03", "imm_ill"), ("C09", "fft_helper_immut")], "?"),
+    "R2-C03-B": ("C03", "SSE f32 load1_complex reads 16 instead of 8 bytes: butterflies 7, 9, 11, ... single-FFT kernel on the last chunk of a slice (8-byte over-read)", [("C03", "h_sse")], "?"),
+    "R2-C15-B": ("C15", "SSE f32 butterflies immutable entry point: one chunk of input, shorter output: no panic, stores past the output", [("C15", "h_sse"), ("C09", "h_sse"), ("C03", "h_sse")], "?"),
+})
+
+
 def sh(c):
     return subprocess.run(c, shell=True, stdout=subprocess.PIPE, stderr=subprocess.STDOUT, text=True)
 seeds = sys.argv[1:] or sorted(PLAN)
 for sid in seeds:
     breaks, needs, checks, expected = PLAN[sid]
     d = f"{V}/seeded/{sid}"
+    key = os.environ.get("SEED_EVAL_KEY", "runs")
+    old = json.load(open(f"{d}/meta.json")) if (key != "runs" and os.path.exists(f"{d}/meta.json")) else None
     meta = {"seed": sid, "breaks_property": breaks, "needs_to_manifest": needs, "expected": expected, "runs": [],
             "confirmed_in_scratch_worktree": "existing suite passes with the change (202 passed incl. doctests), demo fails with the change, demo passes without (tools/confirm_seed.sh)"}
     if checks:
@@ -49,5 +71,10 @@ for sid in seeds:
                 print(sid, cmd, "exit", r.returncode, "violations", len(viol), f"{time.time()-t0:.0f}s", flush=True)
         finally:
             sh("git -C /repo checkout -- .")
-    meta["caught"] = any(r["exit"] == 1 and r["violations"] > 0 for r in meta["runs"])
+    if old is not None:
+        old[key] = meta["runs"]
+        old["caught_after_strengthening"] = any(r["exit"] == 1 and r["violations"] > 0 for r in meta["runs"])
+        meta = old
+    else:
+        meta["caught"] = any(r["exit"] == 1 and r["violations"] > 0 for r in meta["runs"])
     json.dump(meta, open(f"{d}/meta.json", "w"), indent=1)
